@@ -12,6 +12,9 @@
 //!   mut-trunc: every mutant cut at every length >= 12   (thorough);
 //!   mut2     : every pair of single-field mutations      (thorough);
 //!   each x {UDP, TCP} x 6 server configurations x 8 catalogs.
+//!   size-sweep: QNAME length, TSIG key-name length and advertised EDNS size
+//!              swept one octet at a time (unsigned, unknown-algorithm and
+//!              correctly signed TSIG), std catalog x 6 configurations.
 //! Oracle: no panic; `Single(n)` with n <= 65535 over TCP and n <= the
 //! largest size the request can justify over UDP (512, or the advertised
 //! size of an OPT record of its additional section clamped to
@@ -90,6 +93,14 @@ pub fn run(ctx: Ctx) -> ! {
     drive::run_reqs(&ctx, &world, &slots, &muts, false, verdict);
     eprintln!("[C01] trunc+mut done at {:.1}s ({} calls)", ctx.elapsed_s(), ctx.evaluations());
 
+    // (d) size sweep: question / key-name / advertised-size lengths swept one
+    // octet at a time on the std catalog under every configuration.
+    let sweep = families::size_sweep(ctx.quick());
+    let sweep_slots: Vec<Slot> = cfgs.iter().map(|cfg| Slot::new(&world, "std", *cfg)).collect();
+    ctx.set_extra("family_size_sweep_requests", json!(sweep.len()));
+    drive::run_reqs(&ctx, &world, &sweep_slots, &sweep, false, verdict);
+    eprintln!("[C01] size-sweep done at {:.1}s ({} calls)", ctx.elapsed_s(), ctx.evaluations());
+
     // (a) raw
     let headers = families::raw_headers();
     let mk = |v: &[(&str, usize)]| -> Vec<Slot> { v.iter().map(|(cat, k)| Slot::new(&world, cat, cfgs[*k])).collect() };
@@ -126,7 +137,7 @@ pub fn run(ctx: Ctx) -> ! {
     ctx.finish("exploration", RULE, true)
 }
 
-const RULE: &str = "every member of: raw headers x all strings <= N over 10 octets; every truncation of every template; every single-field/structural mutation of every template (thorough: x every truncation, and all mutation pairs); x transports x server configurations x catalogs; oracle: no panic and response length <= transport limit";
+const RULE: &str = "every member of: size sweep (QNAME length x key-name length x advertised EDNS size, one octet at a time, with unsigned / unknown-algorithm / valid TSIG); raw headers x all strings <= N over 10 octets; every truncation of every template; every single-field/structural mutation of every template (thorough: x every truncation, and all mutation pairs); x transports x server configurations x catalogs; oracle: no panic and response length <= transport limit";
 
 
 /// Shared replay of a families-type case (C01, C02, C03 use the same case
